@@ -55,7 +55,9 @@ TRUSTED_BASE = [
     "Model/Cypher.lean `render` models Python f-string/str()/join/slice semantics on code points; checked by text equality with the "
     "statements recorded at the stand-in driver",
     "`checkStmt` is a token-level lint (balanced brackets/quotes, no {{ }} {name}, $names supplied, variables bound by a pattern / AS / "
-    "YIELD / comprehension), not a Cypher parser; two implementations (Lean, Python) are compared on every recorded statement",
+    "YIELD / UNWIND / comprehension IN THEIR SCOPE - WITH at depth 0 keeps only what it lists or aliases, UNION starts from nothing - "
+    "clause keywords and boolean operators followed by an operand, no dangling comma), not a Cypher parser; CALL { } subqueries are not "
+    "scoped; `{}` and `()` are accepted (valid Cypher); two implementations (Lean, Python) are compared on every recorded statement",
     "harness/lib_fake_neo4j.py replaces the neo4j driver (canned answers only let each operation run to its end); the oracle names a "
     "call site Class.method#k from the backend frame that called run() and its own ast scan, independently of the translator; "
     "Neo4j/APOC execution is not modelled at all",
